@@ -63,9 +63,9 @@ def run_newton(case):
         for k in ("rel_tol", "abs_tol", "miters", "linesearch", "max_search"):
             if k in case:
                 kw[k] = case[k] if k in ("miters", "linesearch", "max_search") else val(case[k])
-        solvers.newton(lambda x: (np.array([1.0]), np.array([[1.0]])), np.zeros(1),
-                       linear_solver=lambda J, R: R, verbose=False, **kw)
-        return {"outcome": "return", "calls": proxy.calls}
+        x = solvers.newton(lambda x: (np.array([1.0]), np.array([[1.0]])), np.zeros(1),
+                           linear_solver=lambda J, R: R, verbose=False, **kw)
+        return {"outcome": "return", "calls": proxy.calls, "x": float(np.ravel(x)[0]).hex()}
     except RuntimeError as e:
         return {"outcome": "raise", "calls": proxy.calls, "msg": str(e)[:60]}
     finally:
